@@ -13,7 +13,20 @@ def bernsteinAux (n : ℕ) : ℕ → List K → K → K
 /-- The Bezier curve `Σ_i C(n,i) (1-t)^(n-i) t^i P_i` of the control points `P` (n = |P| - 1). -/
 def bernstein (P : List K) (t : K) : K := bernsteinAux (P.length - 1) 0 P t
 
-/-- Evaluation of a polynomial given by its coefficients, highest power first (numpy order). -/
-def polyEval (cs : List K) (t : K) : K := cs.foldl (fun acc c => acc * t + c) 0
+/-- Value at `t` of the polynomial with coefficients `cs`, highest power first (numpy order). -/
+def polyEval : List K → K → K
+  | [], _ => 0
+  | c :: cs, t => c * t ^ cs.length + polyEval cs t
+
+/-- Formal derivative of a coefficient list (highest power first). -/
+def polyDeriv : List K → List K
+  | [] => []
+  | [_] => []
+  | c :: c' :: cs => ((c' :: cs).length : K) * c :: polyDeriv (c' :: cs)
+
+/-- n-fold formal derivative -/
+def polyDerivN : ℕ → List K → List K
+  | 0, cs => cs
+  | n + 1, cs => polyDerivN n (polyDeriv cs)
 
 end SvgVerif.Spec
